@@ -288,3 +288,25 @@ func ReplayPath(family, tier string, spec int, path []Ev) []Fail {
 	}
 	return nil
 }
+
+func init() {
+	core.Replayers = append(core.Replayers, func(id string, raw json.RawMessage) (bool, []string) {
+		var r struct {
+			Family string `json:"family"`
+			Tier   string `json:"tier"`
+			Spec   *int   `json:"spec"`
+			Path   []Ev   `json:"path"`
+		}
+		if json.Unmarshal(raw, &r) != nil || r.Family == "" || r.Spec == nil || Specs[r.Family] == nil {
+			return false, nil
+		}
+		if r.Tier == "" {
+			r.Tier = "quick"
+		}
+		var out []string
+		for _, f := range ReplayPath(r.Family, r.Tier, *r.Spec, r.Path) {
+			out = append(out, f.Key+": "+f.What)
+		}
+		return true, out
+	})
+}
